@@ -499,4 +499,39 @@ fn molodensky_case(h: &H, idx: u64, rng: &mut Rng) {
             break;
         }
     }
+    // one place at several heights, as one set (a mast, a borehole, flight levels): every member
+    // agrees with the Helmert path like a tuple on its own
+    let lon = rng.range(-180.0, 180.0) * D2R;
+    let lat = rng.range(-80.0, 80.0) * D2R;
+    let mut set: Vec<Coor4D> = (0..4).map(|k| Coor4D([lon, lat, -200.0 + 2500.0 * k as f64 * rng.range(0.5, 1.5), 2000.0])).collect();
+    let input = set.clone();
+    let mut via = set.clone();
+    apply_set(&ctx, mop, D::F, &mut set);
+    apply_set(&ctx, hop, D::F, &mut via);
+    for k in 0..set.len() {
+        h.eval(1);
+        let hgt = input[k][2];
+        let r = e1.ground(set[k][0], set[k][1], via[k][0], via[k][1]).max((set[k][2] - via[k][2]).abs());
+        let mut tol = 5.0e-3 + dd * dd / e0.a / lat.cos();
+        if abridged {
+            tol += 2.0 * dd * (e0.es() + hgt.abs() / e0.a);
+        }
+        if !(r <= tol) {
+            h.violation(
+                idx,
+                &format!("C07/molodensky/{}/same-place-several-heights", if abridged { "abridged" } else { "standard" }),
+                J::obj()
+                    .set("molodensky", &mdef)
+                    .set("helmert_path", &hdef)
+                    .set("position_in_set", k)
+                    .set("input", J::bits(&input[k].0))
+                    .set("molodensky_result", J::bits(&set[k].0))
+                    .set("helmert_result", J::bits(&via[k].0))
+                    .set("difference_m", r)
+                    .set("bound_m", tol),
+            );
+            break;
+        }
+    }
+    h.class("molodensky/same-place-several-heights");
 }
